@@ -7,6 +7,7 @@ NOT_APPLICABLE = {}
 
 PROPS = {
     'C01': {
+        'modules': ['C01', 'TieWrite', 'TieRead'],
         'families': [('ep:pipe', 400, 4000), ('ep:sizes', 400, 8000), ('tp', 100, 3000)],
         'rule': 'message sequences (text, binary, ping, pong) with payload sizes 0, 1, 125/126/127, 4095..4097, 65535/65536/65537, 70000 written by a '
                 'real endpoint of either role under partial writes and WouldBlock, its real wire output read by a real endpoint of the other role '
@@ -22,23 +23,27 @@ PROPS = {
         'level_note': 'Composition of C10, C18, C19, C05. BytesMut capacity policy is not modelled (chunk sizes universally quantified).',
     },
     'C04': {
-        'modules': ['C04', 'C04Progress'],
+        'modules': ['C04', 'C04Progress', 'C04Pair', 'TieWrite', 'TieRead'],
         'families': [('ep:slotrace', 1, 1), ('tp', 2000, 60000), ('ep:close', 500, 10000), ('ep:backpressure', 800, 20000)],
         'rule': 'two real endpoints (client and server) joined by two in-memory pipes: adaptive random schedules of {write data, ping, pong, flush, read, '
                 'close} on both sides x delivery granularity (1 byte .. all) x write-side WouldBlock windows x flush blocks, incl. simultaneous close and '
                 'close with data or pings in flight; then a fair drain phase (both flush and read, drop the transport on ConnectionClosed)',
-        'assumptions': ['termination under the fair driver ("both told ConnectionClosed after finitely many steps, server first") is NOT a theorem: '
-                        'it is checked on the real crate by the joint monitor on every generated schedule (partial)'],
+        'assumptions': ['no message/frame size limit and max_write_buffer_size >= 400 on both sides (the buffer holds the largest frame used)',
+                        'nothing pre-read; user operations are Sendable (control payloads <= 125 bytes, no raw frames) and CloseOk (close reason <= 123 bytes)',
+                        'transport behaviour is benign: reads deliver pipe bytes or WouldBlock, writes accept >= 1 byte or WouldBlock, flush ok or WouldBlock'],
         'trusted_base': [],
         'level_text': 'Kernel-checked safety by composition: on ANY prefix of the wire image of frames that are legitimate for the sender\'s role with '
                       'nothing after a Close (guaranteed for every reachable sender state by C09_queued_wellformed, C03_close_is_last, C10_fifo) the '
                       'receiver\'s decoder never reports an error, delivers one message per frame in order and ends closed iff a Close was sent; '
                       'transferred to the reading endpoint for every segmentation through C05 (C04_reader_sees_no_protocol_error). '
-                      'D1 and D4 were genuine violations of this property and were repaired.',
-        'level_note': 'Partial: liveness. The per-side monitors of C03, C07 and C13 also run on both sides of every two-party case.',
+                      'Two-party model (WsModel/TwoParty.lean), kernel-checked for EVERY interleaving / delivery schedule / WouldBlock pattern: '
+                      'C04_pair_no_protocol_error, C04_pair_prefix_delivery, C04_pair_close_completes (both told ConnectionClosed, server first, '
+                      'within two rounds of the fair driver). D1 and D4 were genuine violations of this property and were repaired.',
+        'level_note': 'The per-side monitors of C03, C07 and C13 also run on both sides of every two-party case; the joint monitor ties the two-party model to the crate.',
     },
     'C07': {
-        'families': [('corpus:', 0, 0), ('ep:hostile', 2500, 80000), ('ep:mixed', 500, 20000), ('ep:limits', 300, 10000),
+        'modules': ['C07', 'TieWrite', 'TieRead'],
+        'families': [('corpus:', 0, 0), ('ep:tinybuf', 600, 15000), ('ep:hostile', 2500, 80000), ('ep:mixed', 500, 20000), ('ep:limits', 300, 10000),
                      ('hs:server', 1200, 40000), ('hs:client', 1200, 40000), ('tp', 150, 4000)],
         'rule': 'random, mutated-valid and boundary-crafted byte streams x per-call transport outcomes {n bytes, 0, WouldBlock, Interrupted, reset, '
                 'other error} on read, write and flush x roles x finite limits, sockets and both handshakes; every call under catch_unwind, '
@@ -55,6 +60,7 @@ PROPS = {
                       '(Round.panic only for an empty write buffer, never constructed) and the correspondence.',
     },
     'C09': {
+        'modules': ['C09', 'TieWrite'],
         'families': [('corpus:defects', 0, 0), ('ep:sizes', 400, 8000), ('ep:mixed', 800, 20000), ('ep:ping', 500, 10000), ('ep:maskpaths', 1, 1),
                      ('pure:hformat', 500, 20000)],
         'rule': 'all message kinds, payload sizes 0..70000 around the encoding boundaries, both roles, histories that trigger automatic pongs and '
@@ -70,6 +76,7 @@ PROPS = {
         'level_note': 'Partial for key unpredictability.',
     },
     'C13': {
+        'modules': ['C13', 'TieWrite', 'TieRead'],
         'families': [('ep:slotrace', 1, 1), ('corpus:defects', 0, 0), ('ep:backpressure', 2500, 80000), ('ep:close', 800, 20000), ('tp', 150, 4000)],
         'rule': 'histories x WouldBlock windows on write/flush x max_write_buffer_size from just above the largest frame to unlimited x write_buffer_size',
         'assumptions': ['max_write_buffer_size holds the largest single frame of the history when empty (property quantifier; hypothesis hfit)'],
@@ -83,7 +90,8 @@ PROPS = {
         'level_note': 'The first statement of pong_never_dropped was proved false (a user pong replaces the pending one) and corrected.',
     },
     'C02': {
-        'families': [('ep:codec', 2500, 80000), ('ep:utf8', 500, 10000), ('ep:limits', 500, 10000)],
+        'modules': ['C02', 'TieWrite', 'TieRead'],
+        'families': [('ep:codec', 2500, 80000), ('ep:utf8', 500, 10000), ('ep:utf8cuts', 1, 1), ('ep:limits', 500, 10000)],
         'rule': 'well-formed frame sequences with arbitrary fragmentation and interleaved control frames, and the same with a single rule '
                 'violation injected (RSV, reserved opcodes, fragmented / oversized control, stray continuation, nested data frame, wrong '
                 'mask direction, malformed close payload, non-minimal lengths, huge announced lengths), byte garbage; role x accept_unmasked_frames; '
@@ -99,6 +107,7 @@ PROPS = {
                       '(C05_unlimited_needs_size_bound) and replaced by effective limits / a size hypothesis.',
     },
     'C05': {
+        'modules': ['C05', 'TieWrite', 'TieRead'],
         'families': [('ep:codec', 2500, 80000), ('ep:sizes', 300, 5000), ('ep:pipe', 150, 3000)],
         'rule': 'inbound streams under many segmentations (1-byte, small, large chunks, WouldBlock between segments), every (pre-read, rest) split '
                 'the generator picks, six read-buffer sizes; each case compared with the one-shot decoder of the whole stream',
@@ -161,6 +170,7 @@ PROPS = {
                       'response head; bytes beyond the head are handed to the socket) under the assumption hstable about httparse.',
     },
     'C03': {
+        'modules': ['C03', 'TieWrite', 'TieRead'],
         'families': [('ep:slotrace', 1, 1), ('corpus:defects', 0, 0), ('ep:exhaustive', 3, 4), ('ep:close', 2500, 80000), ('ep:mixed', 800, 20000), ('ep:hostile', 500, 20000)],
         'rule': 'interleavings of user calls (read, write of each kind, flush, close) with peer frames (data, ping, close, garbage after '
                 'close), transport EOF/reset at any point, WouldBlock on any write or flush, both roles; corpus = the witnesses of the '
@@ -178,6 +188,7 @@ PROPS = {
                       'evaluates the seven sub-claims on every implementation trace.',
     },
     'C10': {
+        'modules': ['C10', 'TieWrite', 'TieRead'],
         'families': [('ep:slotrace', 1, 1), ('corpus:defects', 0, 0), ('ep:backpressure', 2000, 60000), ('ep:sizes', 300, 5000), ('ep:mixed', 500, 20000)],
         'rule': 'message sequences x per-call transport write outcomes (accept k of n for many k, WouldBlock, repeated) x flush outcomes '
                 'x write_buffer_size',
@@ -190,7 +201,7 @@ PROPS = {
         'level_note': 'Unbounded histories by induction; tie to code by correspondence (wire bytes compared byte for byte, masks fixed by the hook).',
     },
     'C06': {
-        'modules': ['C06', 'C06Global'],
+        'modules': ['C06', 'C06Global', 'TieWrite', 'TieRead'],
         'families': [('corpus:limits', 0, 0), ('ep:limits', 1500, 40000), ('ep:codec', 500, 10000)],
         'rule': 'frame/fragment size patterns around the configured limits (limit-1, limit, limit+1; limits 0,1,5,10,125,126,300), '
                 'headers announcing up to 2^64-1 bytes with nothing following, every read-buffer size; read-only cases are also '
@@ -207,7 +218,7 @@ PROPS = {
                       'refinement theorem of C05 (C05_segmentation_independent) together with C06_spec_messages_bounded.',
     },
     'C11': {
-        'modules': ['C11', 'C11Global'],
+        'modules': ['C11', 'C11Global', 'TieWrite', 'TieRead'],
         'families': [('ep:slotrace', 1, 1), ('corpus:defects', 0, 0), ('ep:ping', 2000, 60000), ('ep:backpressure', 800, 20000)],
         'rule': 'sequences of pings (payload 0..125) interleaved with data, user pongs and closes, read/write/flush call patterns, '
                 'WouldBlock on any write or flush, small write buffers',
@@ -222,7 +233,7 @@ PROPS = {
                       'in order: none invented, none reordered), C11_ping_makes_pong_pending, C13_pong_never_dropped.',
     },
     'C12': {
-        'modules': ['C12', 'C12Global'],
+        'modules': ['C12', 'C12Global', 'TieWrite', 'TieRead'],
         'families': [('ep:slotrace', 1, 1), ('corpus:defects', 0, 0), ('ep:close', 2000, 60000), ('ep:backpressure', 1500, 40000), ('pure:closecode', 1, 1)],
         'rule': 'close frames with every class of status code (all 65536 through the conversion functions), reasons empty..123 bytes, '
                 'arriving in every connection state, with and without a pending pong',
@@ -235,8 +246,8 @@ PROPS = {
         'level_note': '"Exactly one Close reaches the wire" is the CloseLast part of the C03 invariant plus C13; here per-call theorems for every state.',
     },
     'C14': {
-        'modules': ['C14', 'C14Global'],
-        'families': [('ep:slotrace', 1, 1), ('corpus:defects', 0, 0), ('ep:backpressure', 2000, 60000), ('ep:mixed', 500, 10000)],
+        'modules': ['C14', 'C14Global', 'TieWrite'],
+        'families': [('ep:slotrace', 1, 1), ('corpus:defects', 0, 0), ('ep:backpressure', 2000, 60000), ('ep:tinybuf', 600, 15000), ('ep:mixed', 500, 10000)],
         'rule': '(write_buffer_size, max_write_buffer_size) pairs incl. 0 and adjacent values, message size sequences, transport refusal '
                 'windows, ping floods while blocked',
         'assumptions': ['max_write_buffer_size holds the largest single frame used (property quantifier)'],
@@ -248,7 +259,8 @@ PROPS = {
         'level_note': 'Codec- and call-level theorems for every state; the history-level bound is the `bound` field of the C03 invariant.',
     },
     'C08': {
-        'families': [('pure:utf8', 500, 20000), ('pure:utf8c', 8, 200), ('ep:utf8', 1500, 40000), ('corpus:utf8', 0, 0)],
+        'modules': ['C08', 'TieWrite', 'TieRead'],
+        'families': [('ep:utf8cuts', 1, 1), ('pure:utf8', 500, 20000), ('pure:utf8c', 8, 200), ('ep:utf8', 1500, 40000), ('corpus:utf8', 0, 0)],
         'rule': 'from_utf8 / utf8::decode on all 1- and 2-byte strings, 3-/4-byte strings around every table boundary and structured '
                 'valid/invalid/truncated strings; Incomplete::try_complete on every incomplete-prefix shape x next bytes; text messages '
                 'cut into fragments (also inside characters) read through WebSocket::read',
@@ -262,7 +274,7 @@ PROPS = {
                       'through read is covered by the correspondence and the RFC-decoder monitor.',
     },
     'C18': {
-        'families': [('pure:hparse', 1, 1), ('pure:hformat', 2000, 100000), ('pure:fformat', 300, 6000)],
+        'families': [('pure:hparse', 1, 1), ('pure:hparseat', 1500, 60000), ('pure:hformat', 2000, 100000), ('pure:fformat', 300, 6000)],
         'exhaustive': True,
         'rule': 'all 65536 values of the first two header bytes with boundary extended lengths, masks and every truncation point '
                 'through FrameHeader::parse; all flag/opcode/mask/boundary-length combinations through FrameHeader::format; frame '
